@@ -81,3 +81,23 @@ pub proof fn lemma_mask_zero(mask: u32, j: u32)
 {
     assert((0u32 >> j) & 1 == 0) by (bit_vector);
 }
+
+// ---- saturating subtract / zero (used by the JSON escape masks: `byte < 0x20` as `subs_epu8(byte, 0x1F) == 0`)
+#[verifier::external_body]
+pub fn _mm256_subs_epu8(a: __m256i, b: __m256i) -> (r: __m256i)
+    requires a.lanes().len() == 32, b.lanes().len() == 32
+    ensures r.lanes().len() == 32, forall|i: int| 0 <= i < 32 ==> #[trigger] r.lanes()[i] == (if a.lanes()[i] >= b.lanes()[i] { (a.lanes()[i] - b.lanes()[i]) as u8 } else { 0u8 })
+{ unimplemented!() }
+#[verifier::external_body]
+pub fn _mm_subs_epu8(a: __m128i, b: __m128i) -> (r: __m128i)
+    requires a.lanes().len() == 16, b.lanes().len() == 16
+    ensures r.lanes().len() == 16, forall|i: int| 0 <= i < 16 ==> #[trigger] r.lanes()[i] == (if a.lanes()[i] >= b.lanes()[i] { (a.lanes()[i] - b.lanes()[i]) as u8 } else { 0u8 })
+{ unimplemented!() }
+#[verifier::external_body]
+pub fn _mm256_setzero_si256() -> (r: __m256i)
+    ensures r.lanes().len() == 32, forall|i: int| 0 <= i < 32 ==> #[trigger] r.lanes()[i] == 0u8
+{ unimplemented!() }
+#[verifier::external_body]
+pub fn _mm_setzero_si128() -> (r: __m128i)
+    ensures r.lanes().len() == 16, forall|i: int| 0 <= i < 16 ==> #[trigger] r.lanes()[i] == 0u8
+{ unimplemented!() }
